@@ -2220,9 +2220,11 @@ impl DistributedTxCoordinator {
     /// Returns the number of locks released.
     pub fn release_orphaned_locks(&self, partition_start_ms: u64) -> usize {
         // Atomic single critical section: identify and clean together to prevent TOCTOU races
+        // Documented lock order is pending -> locks -> tx_locks; commit/abort/cleanup_timeouts
+        // hold `pending` while they release locks, so taking it last here can deadlock.
+        let pending = self.pending.read();
         let mut locks = self.lock_manager.locks.write();
         let mut tx_locks = self.lock_manager.tx_locks.write();
-        let pending = self.pending.read();
 
         // Snapshot active transactions while holding all locks
         let active_tx_ids: std::collections::HashSet<u64> = pending.keys().copied().collect();
